@@ -163,6 +163,22 @@ def cli_build(src, word, unchecked, extra=()):
         return f.read().split(b'\n'), ''
 
 
+# constant and computed indices into string literals, string variables, arguments and string-array elements (the text
+# of a string starts one WORD after its label, whatever the word size)
+STRING_INDEX = '''
+string gs = "Sphinx";
+byte pick(string s, int k) { return s[k]; }
+empty @is_you(const string[] w) {
+    string opt = w[0];
+    write(opt[1]); write(opt[0]); write("0123456789ABCDEF"[10]); write("hello"[4]); write("hello"[0]); write(gs[5]); write(gs[0]); write(w[1][0]);
+    write(pick("keke", 3)); write(pick(opt, 1)); write(' ');
+    int k = 2; write("hello"[k]); write(gs[k + 1]); write(opt[k - 1]); write(("x" is byte[])[0]); write((opt is byte[])[1]); write(' ');
+    write("hello".length); write(gs.length); write(opt.length); write(w[1].length);
+    writeln();
+}
+'''
+
+
 def run_with_guards(lines, args):
     prog = assemble(lines, args)
     g = GuardMonitor()
@@ -265,6 +281,12 @@ def run_shard(spec):
             for k, (tag, prog) in enumerate(gen()):
                 if k % spec['parts'] == spec['part']:
                     work += [(tag, A.render(prog), a, 2 + k % 3, False) for a in argsets]
+        # try-block histories (what one try leaves behind for the next, which function is compiled first) in both builds
+        for k, (tag, prog) in enumerate(idioms.history_programs()):
+            if k % (spec['parts'] * 4) == spec['part'] or (tag.startswith('history-two-functions') and k % spec['parts'] == spec['part']):
+                work += [(tag, A.render(prog), a, 2, False) for a in (idioms.HISTORY_ARGS[k % 4], idioms.HISTORY_ARGS[(k + 1) % 4])]
+        if spec['part'] == 1:
+            work += [('constant indices into strings', STRING_INDEX, a, w, False) for a in (['-v', 'hex'], ['ab', 'c']) for w in (2, 3, 4, 8)]
         # function bodies built from exit shapes (terminal calls all_is_win / all_is_broken included), enumerated and random
         from ..gen import exits
         for k, (tag, prog, ret) in enumerate(exits.loop_exit_programs()):
